@@ -4,13 +4,18 @@
 (*  "malformed" [text, raised]                      no digit.digit anywhere => ValueError         *)
 (*  "roundtrip" [groups, text, raised, got]         parse(to_reduced_str(g)) = g on the domain    *)
 (*  "eq"        [g1, g2, eq, hash_eq, eq_str, str_ok, cde, eqs]                                   *)
-EXTENDS Obis, Json, IOUtils
+EXTENDS Obis, Json, IOUtils, ObisMap
 Bad(t, c) == [id |-> t.id, ok |-> FALSE, clause |-> c, drift |-> ""]
 Good(t) == [id |-> t.id, ok |-> TRUE, clause |-> "", drift |-> ""]
 \* growth (DESIGN §12): filter_group_cde keeps groups C, D, E and drops the rest; a mismatch is DRIFT, not a violation of C20
 FilterCDE(g) == <<None, None, g[3], g[4], g[5], None>>
+\* growth (DESIGN §12): the registry tables of han/obis_map.py are exactly ObisMap!NameTable, and name_obis_map is its inverse
+RegistryPairs == {<<NameTable[i][1], NameTable[i][2]>> : i \in 1..Len(NameTable)}
+RegistryOK(t) == /\ t.unparsable = 0 /\ t.inverse_ok /\ t.size = Len(NameTable) /\ Len(t.table) = Len(NameTable)
+                 /\ {<<t.table[i].cde, t.table[i].name>> : i \in 1..Len(t.table)} = RegistryPairs
 Verdict(t) ==
-  IF t.kind = "parse" THEN
+  IF t.kind = "registry" THEN (IF RegistryOK(t) THEN Good(t) ELSE [Good(t) EXCEPT !.drift = "obis.registry"])
+  ELSE IF t.kind = "parse" THEN
      IF ~WellFormedGroups(t.groups) \/ (t.form = "six" /\ ~AllPresent(t.groups)) THEN Bad(t, "plan")
      ELSE IF t.text # (IF t.form = "six" THEN SixPart(t.groups) ELSE Reduced(t.groups)) THEN Bad(t, "plan")
      ELSE IF t.raised # "" THEN Bad(t, "C20.parse_raised")
